@@ -677,6 +677,11 @@ pub fn chunk_len_sweep(verb: &str, thorough: bool) -> Vec<Vec<String>> {
             ops.push(format!("zdec {} {} {}", m, 252 + k, cut));
         } else {
             ops.push(format!("zenc {} {}", m, 252 + k));
+            // the same chunking with FE as the last byte of the first chunk: the header under test follows an FE
+            if thorough || i % 2 == 0 {
+                ops.push(prod.op());
+                ops.push(format!("zenc {} {} fe", m, 252 + k));
+            }
         }
         if ops.len() >= 128 {
             cases.push(std::mem::take(&mut ops));
